@@ -152,6 +152,7 @@ func checkMain(repo, verifRoot, prop, tier, replayFile string, verbose bool) int
 	totalPaths, totalInstances, trivial, guardedOK := 0, 0, 0, 0
 	solverWins := map[string]int{}
 	solverTime := 0.0
+	var boundedNotes []string
 	ownUnits := map[string]bool{} // units of ownership targets: every ownership obligation in them is claimed, baseline or not
 
 	// one engine per module (registry is global: reset between modules)
@@ -225,6 +226,35 @@ func checkMain(repo, verifRoot, prop, tier, replayFile string, verbose bool) int
 			}
 		}
 		for _, x := range pc.Extra {
+			if strings.HasPrefix(x, "lean:") && mod == "mpc/bls" {
+				// the Lean file speaks about the spec functions of both copies (bls here; ps compared textually below via its own engine)
+				var pkgs []string
+				for _, t := range byModule[mod] {
+					pkgs = append(pkgs, t.Pkg)
+				}
+				leanTimeout := 600.0
+				if err := e.leanObligations(verifRoot, x[5:], pkgs[:1], leanTimeout); err != nil {
+					contractErrs = append(contractErrs, x+": "+err.Error())
+				}
+				funcsUnderContract[x] = true
+			}
+			if strings.HasPrefix(x, "lean:") && mod == "mpc/ps" {
+				var pkgs []string
+				for _, t := range byModule[mod] {
+					pkgs = append(pkgs, t.Pkg)
+				}
+				e.bridgeOnly(verifRoot, x[5:], pkgs[:1])
+			}
+			if strings.HasPrefix(x, "bounded:choose") && (mod == "mpc/bls" || mod == "mpc/ps") {
+				bound := 12
+				if tier == "thorough" {
+					bound = 18
+				}
+				e.boundedChoose(repo, mod, filepath.Base(mod), bound)
+				for _, n := range e.boundedNotes {
+					boundedNotes = append(boundedNotes, n)
+				}
+			}
 			if strings.HasPrefix(x, "tables:") && mod == "mpc/binance/"+x[7:] {
 				if err := e.tableObligations(repo, x[7:]); err != nil {
 					contractErrs = append(contractErrs, "tables:"+x[7:]+": "+err.Error())
@@ -331,7 +361,7 @@ func checkMain(repo, verifRoot, prop, tier, replayFile string, verbose bool) int
 	findings := loadFindings(filepath.Join(verifRoot, "known_findings.txt"))
 	exit := 0
 	violations := 0
-	claimed, discharged := 0, 0
+	claimed, discharged, boundedPassed := 0, 0, 0
 	var undecidedNew, knownLines []string
 	var samples []any
 	os.RemoveAll(filepath.Join(verif, "replays", prop))
@@ -358,7 +388,9 @@ func checkMain(repo, verifRoot, prop, tier, replayFile string, verbose bool) int
 			isClaimed = false
 		}
 		if r.Status == "discharged" {
-			if isClaimed || !haveBase {
+			if r.Kind == "bounded" {
+				boundedPassed++ // a bounded stand-in that passed: reported separately, never counted as a discharged obligation
+			} else if isClaimed || !haveBase {
 				claimed++
 				discharged++
 			}
@@ -431,6 +463,8 @@ func checkMain(repo, verifRoot, prop, tier, replayFile string, verbose bool) int
 		"solver_wins":              solverWins,
 		"solver_time_s":            round3(solverTime),
 		"baseline_file":            basePath,
+		"bounded_stand_ins_not_counted_as_proved": boundedNotes,
+		"bounded_stand_ins_passed":                boundedPassed,
 	}
 	tb := sortedKeys(trusted)
 	for _, a := range sortedKeys(assumptions) {
